@@ -694,11 +694,18 @@ func (msc *MinerSmartContract) shareSignsOrShares(t *transaction.Transaction,
 			"getting miners DKG list %v", err)
 	}
 
+	if _, ok = dmn.SimpleNodes[t.ClientID]; !ok {
+		return "", common.NewError("share_signs_or_shares",
+			"miner not part of dkg set")
+	}
+
 	var sos = block.NewShareOrSigns()
 	if err = sos.Decode(inputData); err != nil {
 		return "", common.NewErrorf("share_signs_or_shares",
 			"decoding input %v", err)
 	}
+	// the shares are validated against the sender's own public keys
+	sos.ID = t.ClientID
 
 	if len(sos.ShareOrSigns) < dmn.K-1 {
 		return "", common.NewErrorf("share_signs_or_shares",
@@ -731,7 +738,6 @@ func (msc *MinerSmartContract) shareSignsOrShares(t *transaction.Transaction,
 		dmn.RevealedShares[share]++
 	}
 
-	sos.ID = t.ClientID
 	gsos.Shares[t.ClientID] = sos
 
 	Logger.Debug("update gsos",
